@@ -63,13 +63,40 @@ JudgeSteps(c, r, i, parts) ==
           ELSE IF PayloadLen(ps) > s.fed THEN "PayloadBound"
           ELSE JudgeSteps(c, r, i + 1, ps)
 
+\* ground truth for the limits, from the unlimited one-piece reference of the same body
+PartLen(c, i) == IF c.ref.parts[i].off >= 0 THEN c.ref.parts[i].len ELSE Len(c.ref.parts[i].lit)
+FieldTooBig(c, r) == /\ c.ctype = "multipart" /\ r.maxmem >= 0 /\ c.ref.err = ""
+                     /\ \E i \in 1..Len(c.ref.parts) : c.ref.parts[i].kind = "field" /\ PartLen(c, i) > r.maxmem
+TooManyParts(c, r) == c.ctype = "multipart" /\ r.maxparts >= 0 /\ c.ref.err = "" /\ Len(c.ref.parts) > r.maxparts
+Limited(r) == r.maxmem >= 0 \/ r.maxparts >= 0
+
 JudgeForm(c, r) ==
   IF c.formref.err # "" THEN "ok"
   ELSE IF r.res.err = "" THEN
-       (IF r.res.fields = c.formref.fields /\ r.res.files = c.formref.files THEN "ok"
-        ELSE IF r.maxmem >= 0 \/ r.maxparts >= 0 THEN "GuardPurity" ELSE "FormEqualsRef")
-  ELSE IF r.res.err = "too_large" /\ (r.maxmem >= 0 \/ r.maxparts >= 0) THEN "ok"
-  ELSE IF r.maxmem >= 0 \/ r.maxparts >= 0 THEN "OnlyTooLarge" ELSE "SpuriousError"
+       (IF FieldTooBig(c, r) \/ TooManyParts(c, r) THEN "LimitNotEnforced"
+        ELSE IF r.res.fields = c.formref.fields /\ r.res.files = c.formref.files THEN "ok"
+        ELSE IF Limited(r) THEN "GuardPurity" ELSE "FormEqualsRef")
+  ELSE IF r.res.err = "too_large" /\ Limited(r) THEN "ok"
+  ELSE IF Limited(r) THEN "OnlyTooLarge" ELSE "SpuriousError"
+
+\* request level (C10): Request.form/files under max_content_length / max_form_memory_size /
+\* max_form_parts, with or without CONTENT_LENGTH and wsgi.input_terminated.
+\* run: [mcl, maxmem, maxparts, has_cl, term, consumed, res: [err, fields, files]]
+JudgeReq(c, r) ==
+  LET n        == Len(c.wire)
+      usable   == r.has_cl \/ r.term
+      urlBig   == c.ctype = "urlencoded" /\ r.maxmem >= 0 /\ r.has_cl /\ n > r.maxmem
+      bodyBig  == r.mcl >= 0 /\ n > r.mcl /\ usable
+      anyLimit == Limited(r) \/ r.mcl >= 0
+  IN IF r.has_cl /\ r.mcl >= 0 /\ n > r.mcl /\ (r.res.err # "too_large" \/ r.consumed # 0) THEN "DeclaredTooLargeUnread"
+     ELSE IF r.mcl >= 0 /\ r.consumed > r.mcl THEN "ConsumedBound"
+     ELSE IF c.formref.err # "" THEN "ok"
+     ELSE IF r.res.err \notin {"", "too_large"} THEN "OnlyTooLarge"
+     ELSE IF r.res.err = "too_large" THEN (IF anyLimit THEN "ok" ELSE "SpuriousTooLarge")
+     ELSE IF ~usable THEN (IF r.res.fields = <<>> /\ r.res.files = <<>> THEN "ok" ELSE "EmptyWithoutLength")
+     ELSE IF FieldTooBig(c, r) \/ TooManyParts(c, r) \/ urlBig \/ bodyBig THEN "LimitNotEnforced"
+     ELSE IF r.res.fields = c.formref.fields /\ r.res.files = c.formref.files THEN "ok"
+     ELSE "GuardPurity"
 
 \* model drift (never a verdict): the TLA+ decoder model, fed the same wire in one piece,
 \* yields the payloads the real decoder yielded.  Only evaluated for small wires.
@@ -77,13 +104,14 @@ ModelPayloads(c) == LET o == OneShot(c.wire, c.bnd) ps == PartsOf(o.ev) IN
                     [err |-> o.err, data |-> [i \in 1..Len(ps) |-> ps[i].data]]
 RealPayloads(c) == [err |-> IF c.ref.err = "" THEN "" ELSE "value",
                     data |-> [i \in 1..Len(c.ref.parts) |-> Bytes(c.ref.parts[i], c.wire)]]
-DriftOK(c) == Len(c.wire) > 120 \/ c.modelhdr = FALSE \/
+DriftOK(c) == Len(c.wire) > 120 \/ c.modelhdr = FALSE \/ c.ctype # "multipart" \/
               LET m == ModelPayloads(c) r == RealPayloads(c) IN
               IF r.err # "" THEN m.err # "" ELSE m = r
 
 Verdict(line, c) ==
   CASE line.op = "run"  -> JudgeSteps(c, line, 1, <<>>)
     [] line.op = "form" -> JudgeForm(c, line)
+    [] line.op = "req"  -> JudgeReq(c, line)
     [] OTHER -> "ok"
 
 Init == l = 1 /\ cfg = [op |-> "none"]
